@@ -88,7 +88,44 @@ RACE_WHAT = {
                                 "topic but not for the channel (no serial order gives that)",
     "create-channel-vs-topic-delete": "POST /channel/create overlapping POST /topic/delete left the topic without the "
                                       "channel created with it, or the channel without its topic (no serial order gives that)",
+    "lookup-vs-topic-delete": "GET /lookup?topic=x overlapping a loop of POST /channel/create?topic=x&channel=c ; POST /topic/delete?topic=x "
+                              "answered 200 with channels [] although every state a serial order reaches has x together with c or "
+                              "neither (doLookup is three critical sections)",
+    "nodes-vs-topic-delete": "GET /nodes overlapping a loop of POST /topic/delete?topic=y ; REGISTER y by node A ; REGISTER y by node B "
+                             "listed y for B but not for A, a state no serial order reaches (doNodes is 1 + 2n critical sections)",
 }
+
+
+def tombstone_race(ctx, binr):
+    """audit B6: the -race build of the harness runs POST /topic/tombstone against GET /lookup, /nodes, /debug; the Go race
+    detector is the oracle. A report naming (*Producer).Tombstone is the known finding race:tombstone-unlocked-write; any
+    other data race report is a finding of its own."""
+    if not binr:
+        return ["harness harness/e4 does not compile with -race against the current tree"]
+    rc, out = e4.run_test(ctx, binr, "TestVerifE4TombstoneRace", {"VERIF_MS": ctx.budget(1000, 4000)}, 300)
+    m = [l for l in out.splitlines() if l.startswith("TOMBRACE ")]
+    if not m:
+        ctx.log("tombstone race leg failed:\n" + out[-1500:])
+        return ["tombstone race leg (race build) exit %s without a result line" % rc]
+    rounds = int(m[0].split()[1].split("=")[1])
+    ctx.evaluations += rounds
+    blocks = out.split("WARNING: DATA RACE")[1:]
+    tomb = [b for b in blocks if "(*Producer).Tombstone" in b]
+    other = [b for b in blocks if "(*Producer).Tombstone" not in b]
+    ctx.corr.setdefault("races", {})["tombstone-unlocked-write"] = "race-detector reports=%d (other=%d) %s" % (
+        len(tomb), len(other), m[0][9:])
+    if tomb:
+        readers = sorted(set(w for b in tomb for w in ("IsTombstoned", "doDebug", "doNodes", "doLookup") if w in b))
+        ctx.violation("race:tombstone-unlocked-write",
+                      "Go data race: POST /topic/tombstone writes Producer.tombstoned/tombstonedAt outside the RegistrationDB lock "
+                      "while %s read them (%d race-detector reports in %d rounds)" % (", ".join(readers), len(tomb), rounds),
+                      "race tombstone-unlocked-write\n# run: ./check C14 --replay corpus/C14/known/races.ops\n" + tomb[0][:3000])
+    for b in other[:1]:
+        frames = [l.strip() for l in b.splitlines() if l.strip().startswith("github.com/nsqio/nsq/nsqlookupd.")][:2]
+        ctx.violation("race:data-race:" + "|".join(f.split("(")[0] + f.split(")")[0][-12:] for f in frames),
+                      "Go data race in nsqlookupd reported by the race detector: " + " / ".join(frames),
+                      "race tombstone-unlocked-write\n" + b[:3000])
+    return []
 
 
 def races(ctx, binp, only=None):
@@ -130,6 +167,10 @@ def run(ctx):
                 "answers (/topics, /channels, /lookup per topic, /nodes, /debug) compared after EVERY step; plus long "
                 "random histories (3 producers, two sharing one node address) and concurrent histories at quiescent "
                 "points. A case = (operation, resulting answers); non-trivial = the operation succeeded")
+    # the -race build of the harness (audit B6) compiles in the background while the Lean side is checked
+    import concurrent.futures
+    pool = concurrent.futures.ThreadPoolExecutor(max_workers=1)
+    race_bin = pool.submit(ctx.go_test_binary, "nsqlookupd", e4.HARNESS, "e4c14race", None, "verif", True)
     e4.lean_side(ctx, PROPS)
     broken = []
     binp = e4.build_harness(ctx, "e4c14")
@@ -137,6 +178,8 @@ def run(ctx):
     if binp and ctx.replay_in and any(l.startswith("race ") for l in first):
         names = [l.split()[1] for l in e4.read_lines(ctx.replay_in) if l.startswith("race ")]
         broken += races(ctx, binp, only=names)
+        if "tombstone-unlocked-write" in names:
+            broken += tombstone_race(ctx, race_bin.result())
         print("races: %s" % ctx.corr.get("races"))
     elif binp and ctx.replay_in:
         broken += replay(ctx, binp, os.path.abspath(ctx.replay_in), "replay")
@@ -147,6 +190,7 @@ def run(ctx):
             print("model: " + (ml[k][:400] if k < len(ml) else "<missing>"))
     elif binp:
         broken += races(ctx, binp)
+        broken += tombstone_race(ctx, race_bin.result())
         for f in sorted(glob.glob(os.path.join(ROOT, "corpus", "C14", "*.ops"))):
             broken += replay(ctx, binp, f, "corpus:" + os.path.basename(f))
         nsh = 8
